@@ -204,6 +204,17 @@ func (e TypeReflectCacheEntry) CanConvertToUnstructured() bool {
 	return e.isJsonMarshaler || e.ptrIsJsonMarshaler || e.isStringConvertable || e.ptrIsStringConvertable
 }
 
+// canConvertValueToUnstructured reports whether ToUnstructured has a converter or marshaler to call for sv: one
+// declared on the pointer receiver is reachable only through an addressable value, exactly as in
+// encoding/json, which encodes a non-addressable value (a map element, a value held by an interface)
+// field by field instead.
+func (e TypeReflectCacheEntry) canConvertValueToUnstructured(sv reflect.Value) bool {
+	if e.isJsonMarshaler || e.isStringConvertable {
+		return true
+	}
+	return (e.ptrIsJsonMarshaler || e.ptrIsStringConvertable) && sv.Kind() != reflect.Ptr && sv.CanAddr()
+}
+
 // ToUnstructured converts the provided value to unstructured and returns it.
 func (e TypeReflectCacheEntry) ToUnstructured(sv reflect.Value) (interface{}, error) {
 	// This is based on https://github.com/kubernetes/kubernetes/blob/82c9e5c814eb7acc6cc0a090c057294d0667ad66/staging/src/k8s.io/apimachinery/pkg/runtime/converter.go#L505
